@@ -121,7 +121,7 @@ in-range sample index function, hence for the IEEE-double one of the driver). -/
 theorem model_refines_spec (P : Params) (hlt : StrictWeak P.lt) (seqsAll : List (List Elem))
     (hw : WellTagged seqsAll) (hk : KeySorted P.lt seqsAll) (size : Nat) (hsize : size ≤ seqsAll.flatten.length)
     (hthr : 1 ≤ P.threads) (hosf : 1 ≤ P.osf)
-    (hidx : ∀ (len i ns : Nat), 0 < len → P.sampleIdx len i ns size size < len) :
+    (hidx : ∀ (len i ns : Nat), i < ns → 0 < len → P.sampleIdx len i ns size size < len) :
     ∃ r, pmmBase P seqsAll size = .ok r ∧ r.out = (kMerge P.lt seqsAll).take size ∧ r.ret = (size : Int) ∧
       (∃ o, IsPartition P.lt (keyRuns (nonEmpty seqsAll)) size o ∧ r.begins = scatterBegins seqsAll o) ∧
       TileFrom 0 size r.windows :=
@@ -131,7 +131,7 @@ theorem model_refines_spec (P : Params) (hlt : StrictWeak P.lt) (seqsAll : List 
 theorem front_ends_refine_spec (P : Params) (hlt : StrictWeak P.lt) (fs fp : Bool) (mk mn : Nat)
     (seqsAll : List (List Elem)) (hw : WellTagged seqsAll) (hk : KeySorted P.lt seqsAll) (size : Nat)
     (hsize : size ≤ seqsAll.flatten.length) (hthr : 1 ≤ P.threads) (hosf : 1 ≤ P.osf)
-    (hidx : ∀ (len i ns : Nat), 0 < len → P.sampleIdx len i ns size size < len) :
+    (hidx : ∀ (len i ns : Nat), i < ns → 0 < len → P.sampleIdx len i ns size size < len) :
     ∃ r, pmm P fs fp mk mn seqsAll size = .ok r ∧ r.out = (kMerge P.lt seqsAll).take size ∧ r.ret = (size : Int) :=
   pmm_correct P hlt fs fp mk mn seqsAll hw hk size hsize hthr hosf hidx
 
@@ -167,6 +167,31 @@ example : (chunkRows exRuns [0, 0] (exPs.map (·.2))).map (fun row => kMerge exL
 example : ((chunkRows exRuns [0, 0] (samplingOffs exLt exRuns [1, 1])).map (fun row => kMerge exLt row)).flatten =
     kMerge exLt exRuns :=
   sampling_splitting_correct exLt_strictWeak exRuns_wellTagged exRuns_keySorted [1, 1] (by decide)
+
+/-! ### non-vacuity of the end-to-end theorem: both splittings on the D1 input -/
+
+/-- parameters with an integer sample index function that stays inside the sequence -/
+def exP (exact : Bool) (threads : Nat) : Params :=
+  { lt := exLt, stable := true, exact := exact, threads := threads, osf := 2,
+    sampleIdx := fun len i ns _ _ => len * (i + 1) / (ns + 1) }
+
+theorem exP_idx (e : Bool) (t size : Nat) :
+    ∀ (len i ns : Nat), i < ns → 0 < len → (exP e t).sampleIdx len i ns size size < len := by
+  intro len i ns hi hlen
+  show len * (i + 1) / (ns + 1) < len
+  apply Nat.div_lt_of_lt_mul
+  rw [Nat.mul_comm (ns + 1)]
+  exact Nat.mul_lt_mul_of_pos_left (by omega) hlen
+
+example : ∃ r, pmmBase (exP true 3) exRuns 5 = .ok r ∧ r.out = (kMerge exLt exRuns).take 5 :=
+  let ⟨r, h1, h2, _⟩ := model_refines_spec (exP true 3) exLt_strictWeak exRuns exRuns_wellTagged exRuns_keySorted 5
+    (by decide) (by decide) (by decide) (exP_idx true 3 5)
+  ⟨r, h1, h2⟩
+
+example : ∃ r, pmmBase (exP false 4) exRuns 6 = .ok r ∧ r.out = (kMerge exLt exRuns).take 6 :=
+  let ⟨r, h1, h2, _⟩ := model_refines_spec (exP false 4) exLt_strictWeak exRuns exRuns_wellTagged exRuns_keySorted 6
+    (by decide) (by decide) (by decide) (exP_idx false 4 6)
+  ⟨r, h1, h2⟩
 
 /-! ### DESIGN §5 D4 (fixed in the repo; kept as a documented witness)
 
